@@ -103,6 +103,21 @@ def gen_history(rng):
             use = 'var other%d = [%d, %d]; print(kept%d());\n' % (uid, uid, uid, uid)
             a.append(use); b.append(use); kinds.append("failuse:held%d%d" % (uid, uid))
             a.append(PROBE); b.append(PROBE); kinds.append("probe")
+        elif k < 8 and rng.chance(1, 6):
+            # a fiber object defined by a completed statement, killed by an uncaught error of its body: later it is a finished fiber
+            f = 'var w%d = Fiber.new(|| { var step = %d; throw "worker failed"; });\nprint("ready");\nw%d.call();\n' % (uid, uid, uid)
+            a.append(f); b.append('var w%d = Fiber.new(|| { return 1; }); w%d.call();\nprint("ready");\n' % (uid, uid)); kinds.append("fail-fiber")
+            use = 'print(w%d.has_finished()); try { w%d.call(); print("no error"); } catch e { print(e.context); }\n' % (uid, uid)
+            a.append(use); b.append(use); kinds.append("failuse:true|Cannot call a finished fiber.")
+            a.append(PROBE); b.append(PROBE); kinds.append("probe")
+        elif k < 8 and rng.chance(1, 6):
+            # an assignment to a global that was never declared fails and must not define it
+            where = rng.choice(["counter%d = 10;" % uid, "fn setup%d() { counter%d = 10; return 1; }\nprint(setup%d());" % (uid, uid, uid),
+                                "counter%d += 1;" % uid, "var t%d = [counter%d = 3];" % (uid, uid)])
+            a.append(where + "\n"); b.append("\n"); kinds.append("fail-undeclared")
+            use = ('try { print(counter%d); } catch e { print(type(e) == NameError); }\ntry { counter%d = counter%d + 1; print("assigned"); } catch e { print(type(e) == NameError); }\n'
+                   % (uid, uid, uid))
+            a.append(use); b.append(use); kinds.append("failuse:true|true")
         elif k < 8:
             d, f, which = failing_snippet(rng, uid)
             a.append(f); b.append(d); kinds.append("fail%d" % which)
@@ -210,11 +225,14 @@ def correspondence(ctx, model_ok=True):
             for j, (st, kk) in enumerate(zip(oa, kinds)):
                 if kk.startswith("failuse:"):
                     c = progs.canon_step(st)
-                    if c[0] != "ok" or list(c[2]) != [kk.split(":", 1)[1]]:
-                        failures.append({"what": "a closure stored in a global by a function that then failed no longer sees the variable it captured: "
-                                                 "prints %s (%s), expected %r" % (list(c[2]) if len(c) > 2 else c, c[0], kk.split(":", 1)[1]),
+                    want = kk.split(":", 1)[1].split("|")
+                    if c[0] != "ok" or list(c[2]) != want:
+                        prev = kinds[j - 1] if j else ""
+                        failures.append({"what": "after a failed snippet (%s) a later snippet sees something other than the definitions that snippet completed: "
+                                                 "prints %s (%s), expected %r" % (prev, list(c[2]) if len(c) > 2 else c, c[0], want),
                                          "history": a, "snippet_index": j, "build": bname, "kinds": kinds,
-                                         "signature": "capture lost after the capturing function failed", "failing_input": True})
+                                         "signature": "capture lost after the capturing function failed" if prev == "fail-capture" else "state after " + prev,
+                                         "failing_input": True})
                         break
             # (b) failing snippet vs its definitions: later non-failing snippets must print the same
             if len(oa) == len(ob):
